@@ -320,6 +320,8 @@ def handleValid (label : Option Bool) (inp out : List String) : String :=
 def handle (op : String) (inp out : List String) : Option String :=
   match op with
   | "C14.valid" => some (handleValid none inp out)
+  -- single-precision coordinates: the same exact model (the robust kernel widens f32 exactly)
+  | "C14.valid32" => some (if out == ["notf32"] then skip "not-f32" else handleValid none inp out)
   | "C14.jts" => (match inp with
       | "true" :: rest => some (handleValid (some true) rest out)
       | "false" :: rest => some (handleValid (some false) rest out)
